@@ -205,7 +205,23 @@ class Contract:
         if a.vararg:
             items = [fresh("va%d" % i) for i in range(len(self.star_args))] if not self.star_args or isinstance(self.star_args[0], str) else list(self.star_args)
             env[a.vararg.arg] = PTuple(items)
-        if a.kwarg:
+        if a.kwarg and getattr(self, "kwargs_symbolic", False):
+            # **kwargs as an arbitrary dict of its own: string keys, present (allocated) values
+            d = eng.alloc_dict(st)
+            A = a_of(d)
+            h, v, dk, n = fresh("kwh", ArrVB), fresh("kwv", ArrVV), fresh("kwk", ArrVV), fresh("kwn", I)
+            k = z3.Const("k!kw", Val)
+            st.put("dhas", A, h)
+            st.put("dval", A, v)
+            st.put("dkey", A, dk)
+            st.put("dsize", A, n)
+            st.assume(n >= 0)
+            st.assume(z3.ForAll([k], z3.Implies(z3.Select(h, k), z3.And(
+                n > 0, is_str(z3.Select(dk, k)), kn(z3.Select(dk, k)) == k, z3.Not(is_absent(z3.Select(v, k))),
+                z3.Implies(is_ref(z3.Select(v, k)), z3.And(a_of(z3.Select(v, k)) >= 0, a_of(z3.Select(v, k)) < A)))),
+                patterns=[z3.Select(h, k)]))
+            env[a.kwarg.arg] = d
+        elif a.kwarg:
             items = {}
             for n in self.kwargs_names:
                 items[n] = fresh("kw_" + n)
@@ -286,10 +302,72 @@ class Contract:
         set_mode("assume")
         return npaths
 
+    # cut points (Floyd): `cuts` = [(anchor, name, inv)] in source order; anchor is the beginning of the unparsed text of
+    # a top-level statement of the body.  At a cut every incoming path proves inv(c, state); execution continues from ONE
+    # state: the entry state with the modifies set and every assigned local forgotten, inv assumed.  (Objects outside the
+    # modifies set are never written - that is what the write-site frame obligations establish - so their entry contents
+    # are still valid; objects allocated meanwhile lie above the entry allocation pointer, where nothing is known.)
+    cuts = ()
+
+    def run_cut_segments(self, eng, st, f, fx):
+        import ast
+        body = list(f.node.body)
+        idx = []
+        pos = 0
+        for anchor, name, inv in self.cuts:
+            hit = None
+            for i in range(pos, len(body)):
+                if ast.unparse(body[i]).startswith(anchor):
+                    hit = i
+                    break
+            if hit is None:
+                raise Unsupported("cut point %r not found in %s" % (anchor, self.name()))
+            idx.append((hit, name, inv))
+            pos = hit + 1
+        names = eng.assigned_names(body)
+        entry = fx.entry_ctx.pre
+        finals = []
+        cur = [st]
+        start = 0
+        nm = self.name()
+        for hit, name, inv in idx + [(len(body), None, None)]:
+            seg = body[start:hit]
+            oks = []
+            for s0 in cur:
+                for r in (eng.exec_block(seg, s0, fx) if seg else [Res("ok", s0)]):
+                    (oks if r.kind == "ok" else finals).append(r)
+            if inv is None:
+                finals.extend(oks)
+                break
+            lc = Ctx(eng, self, entry, dict(fx.entry_ctx.args))
+            lc.side = "verify"
+            for r in oks:
+                set_mode("prove", r.st)
+                for cn, g in inv(lc, r.st):
+                    eng.oblige(r.st, "%s.cut.%s.%s" % (nm, name, cn), g, kind="cut")
+            # the one state execution continues from
+            h = entry.fork()
+            h.env = dict(oks[0].st.env) if oks else dict(st.env)
+            for v in eng.assigned_names(body[:hit]):     # locals assigned before the cut
+                if v in h.env:
+                    h.env[v] = fresh("cv_" + v)
+            self.havoc(h, list(self.modifies(fx.entry_ctx)))
+            h.frames = st.frames
+            h.ghost = dict(st.ghost)
+            set_mode("assume", h)
+            for cn, g in inv(lc, h):
+                h.assume(g)
+            h.note("cut %s" % name)
+            cur = [h] if oks and eng.feasible(h) else []
+            start = hit
+        return finals
+
     def run_body(self, eng, st, f, fx):
         import ast
         if isinstance(f.node, ast.Lambda):
             rs = eng.ev(f.node.body, st, fx)
+        elif self.cuts:
+            rs = self.run_cut_segments(eng, st, f, fx)
         else:
             rs = eng.exec_block(f.node.body, st, fx)
         out = []
